@@ -106,6 +106,16 @@ def satisfiable(f):
     return any(evalf(f, dict(zip(ats, bits))) for bits in itertools.product([True, False], repeat=len(ats)))
 
 
+def implied(f):
+    """atoms that hold on every valuation satisfying f"""
+    return {a for a in atoms_of(f) if not satisfiable(conj([f, neg(atom(a))]))}
+
+
+def refuted(f):
+    """atoms that fail on every valuation satisfying f"""
+    return {a for a in atoms_of(f) if not satisfiable(conj([f, atom(a)]))}
+
+
 def fmt(f):
     if f[0] == 'const':
         return str(f[1])
@@ -155,6 +165,12 @@ def context(fn, node, pm, stop=None):
                 fs.append(formula(fn, a.test, a, pm))
             elif child is a.orelse:
                 fs.append(neg(formula(fn, a.test, a, pm)))
+        elif isinstance(a, (ast.ListComp, ast.SetComp, ast.GeneratorExp, ast.DictComp)):
+            # the element of a comprehension is evaluated only where the filters of its generators hold
+            if not any(child is g for g in a.generators):
+                for g in a.generators:
+                    for c in g.ifs:
+                        fs.append(formula(fn, c, a, pm))
         elif isinstance(a, ast.While):
             pass
         elif isinstance(a, (ast.FunctionDef, ast.AsyncFunctionDef, ast.Lambda)):
@@ -255,3 +271,77 @@ def value_cases(fn, e, use, pm, depth=0):
                     out.append((conj([eff, f2]), v2, st2))
             return out or [(TRUE, e, use)]
     return [(TRUE, e, use)]
+
+
+class _Repl(ast.NodeTransformer):
+    def __init__(self, old, new):
+        self.old, self.new = old, new
+
+    def visit(self, n):
+        if n is self.old:
+            return copy.deepcopy(self.new)
+        return super().visit(n)
+
+
+def _replaced(e, old, new):
+    """copy of e with the sub-node `old` (by identity) replaced by a copy of `new`"""
+    memo = {id(old): old}          # keep the identity of `old` through the deep copy
+    e2 = copy.deepcopy(e, memo)
+    if e2 is old:
+        return copy.deepcopy(new)
+    return _Repl(old, new).visit(e2)
+
+
+def expr_cases(fn, e, use, pm, depth=0, keep=()):
+    """[(formula, expression)]: the expression e at `use` with conditional sub-expressions split into cases and local names
+    replaced by the values they can hold (each with its condition), so that `d = A if C else B; f(d)`, `f(A if C else B)` and
+    `if C: y = f(A) else: y = f(B)` all give {C: f(A), not C: f(B)}.  Names in `keep`, parameters and loop-carried names stay."""
+    if depth > 8:
+        return [(TRUE, e)]
+    inner, bound = set(), set()           # nodes inside comprehensions / lambdas (not split), names they bind (not expanded)
+    for x in ast.walk(e):
+        if isinstance(x, (ast.ListComp, ast.SetComp, ast.DictComp, ast.GeneratorExp)):
+            inner |= {id(y) for y in ast.walk(x) if y is not x}
+            for g in x.generators:
+                bound |= {y.id for y in ast.walk(g.target) if isinstance(y, ast.Name)}
+        elif isinstance(x, ast.Lambda):
+            inner |= {id(y) for y in ast.walk(x) if y is not x}
+            bound |= {a.arg for a in x.args.args + x.args.kwonlyargs + x.args.posonlyargs}
+    keep = tuple(set(keep) | bound)
+    for x in ast.walk(e):
+        if isinstance(x, ast.IfExp) and id(x) not in inner:
+            c = formula(fn, x.test, use, pm)
+            out = []
+            for br, cc in ((x.body, c), (x.orelse, neg(c))):
+                for f, v in expr_cases(fn, _replaced(e, x, br), use, pm, depth + 1, keep):
+                    g = conj([cc, f])
+                    if satisfiable(g):
+                        out.append((g, v))
+            return out
+    for x in ast.walk(e):
+        if isinstance(x, ast.Name) and isinstance(x.ctx, ast.Load) and x.id not in keep and getattr(x, '_xc', None) is None:
+            cases = value_cases(fn, x, use, pm)
+            if len(cases) == 1 and isinstance(cases[0][1], ast.Name) and cases[0][1].id == x.id:
+                continue
+            if any(isinstance(v, ast.Name) and v.id == x.id for _f, v, _s in cases):
+                continue
+            if any(v is None or any(isinstance(y, (ast.Await, ast.Yield, ast.NamedExpr)) for y in ast.walk(v)) for _f, v, _s in cases):
+                continue
+            out = []
+            for f, v, st in cases:
+                for f1, v1 in expr_cases(fn, v, st, pm, depth + 1, keep):          # the value, expanded at its own definition site
+                    for f2, v2 in expr_cases(fn, _replaced(e, x, _mark(v1)), use, pm, depth + 1, keep):
+                        g = conj([f, f1, f2])
+                        if satisfiable(g):
+                            out.append((g, v2))
+            return out
+    return [(TRUE, e)]
+
+
+def _mark(v):
+    """copy of v whose names are final (they denote values at their own definition site and are not expanded again at the use)"""
+    v2 = copy.deepcopy(v)
+    for y in ast.walk(v2):
+        if isinstance(y, ast.Name):
+            y._xc = True
+    return v2
